@@ -174,6 +174,9 @@ MUST = {
                      'FuWyInlineCas FuWyWinnerLd2',
     'wany1': COMMON + ' GateUp DrRunQ FuIncRef FuThenLd FuThenHeadLd FuThenPush FuThenRecheck FuChainTake FuWyCas FuWyWinnerLd '
                       'FuWyInlineCas FuWyWinnerLd2',
+    'wanyt': COMMON + ' GateUp DrRunQ FuIncRef FuThenLd FuThenHeadLd FuThenPush FuThenRecheck FuChainTake FuWyCas FuWyWinnerLd '
+                      'FuWyInlineCas FuWyWinnerLd2',
+    'wallt': COMMON + ' GateUp DrRunQ FuIncRef FuThenLd FuThenHeadLd FuThenPush FuThenRecheck FuChainTake FuWaDec FuWaCountLd',
     'timed': COMMON + ' GateUp DrRunQ FuIncRef FutexWait FutexRet FutexTimeout',
     'timed_d': COMMON + ' GateUp DrRunQ FuIncRef FutexWait FutexRet FutexTimeout FuReadyLd',
 }
@@ -190,7 +193,7 @@ def model(ctx, name, what, label, fixed=False, dump=None, timeout=900):
         must |= set(MUST[m].split())
     if name in gen.GROUPS:
         label = label + ': ' + ' | '.join(gen.MC[m] for m in members)
-    return ctx.check_model(SPEC, 'MCFuture.tla', cfg, what, label=label, dump=dump, workers=4, timeout=timeout,
+    return ctx.check_model(SPEC, 'MCFuture_%s.tla' % name, cfg, what, label=label, dump=dump, workers=4, timeout=timeout,
                            vacuity_exempt=tuple(a for a in ALL_ACTIONS if a not in must))
 
 
